@@ -50,6 +50,8 @@ _BLOCKS = [
     # an asserted value three dependency levels below its first input (only the last statement carries the assertion)
     ([("int_{n}", "3", int), ("one_{n}", "{m}.increment(int_{n})", int), ("two_{n}", "{m}.increment(one_{n})", int),
       ("res_{n}", "{m}.increment(two_{n})", int)], "res_{n}"),
+    # an object asserted only through its attribute, and an unbound call on it that carries an oracle
+    ([("int_{n}", "9", int), ("box_{n}", "{m}.Box(int_{n})", None), (None, "box_{n}.get()", None)], None),
 ]
 
 
@@ -91,10 +93,21 @@ def _mk_test(blocks, asserted, counter):
         lines, avar = _BLOCKS[bi]
         n = next(counter)
         for name, rhs, typ in lines:
-            name, rhs = name.format(n=n), rhs.format(n=n, m=m)
+            rhs = rhs.format(n=n, m=m)
+            if name is None:
+                # a statement without binding (what is left when an unused binding is stripped); when asserted, it carries an
+                # oracle about the object it was called on
+                st = tc.Statement(node=cst.parse_module(f"{rhs}\n").body[0], bound_variable=None, bound_type=None)
+                if with_assert:
+                    st.assertions.append(ass.ObjectAssertion(rhs.split(".")[0] + ".v", 9))
+                t.add_statement(st)
+                continue
+            name = name.format(n=n)
             st = tc.Statement(node=cst.parse_module(f"{name} = {rhs}\n").body[0], bound_variable=name, bound_type=typ)
             if with_assert and avar is not None and name == avar.format(n=n):
                 st.assertions.append(ass.IsInstanceAssertion(name, "builtins", "object"))
+            if with_assert and name.startswith("box_"):
+                st.assertions.append(ass.ObjectAssertion(f"{name}.v", 9))       # asserted through an attribute path
             t.add_statement(st)
     return t
 
@@ -131,7 +144,9 @@ def _shard_c22(args):
     rnd.shuffle(specs)
     cap = 4000 if tier == "thorough" else 320
     # always included: the deep assertion chain next to code that makes its coverage redundant (within one test and across tests)
-    directed = [((6, 6),), ((6, 2),), ((2, 6),), ((6,), (6,)), ((6, 0), (2,)), ((6, 6), (6,))]
+    directed = [((6, 6),), ((6, 2),), ((2, 6),), ((6,), (6,)), ((6, 0), (2,)), ((6, 6), (6,)),
+                # objects asserted through attributes / unbound asserted calls next to code that makes their coverage redundant
+                ((7, 4),), ((4, 7),), ((7, 7),), ((4, 4),), ((7,), (4,))]
     specs = directed + [s for s in specs[:cap] if s not in directed]
 
     def fresh_cov(suite):
